@@ -132,7 +132,7 @@ PROPS = {
         "assumptions": ["Pauli targets in OBSERVABLE_INCLUDE are a documented exception for m2d; their sampled contribution is not compared"],
     },
     "C03": {
-        "lean_modules": ["StimModel.Props.C03", "StimModel.Generated.RevThms", "StimModel.Generated.FrameThms", "StimModel.Generated.GateThms"],
+        "lean_modules": ["StimModel.Props.C03", "StimModel.Generated.RevThms", "StimModel.Generated.FrameThms", "StimModel.Generated.GateThms", "StimModel.Props.Fourier"],
         "areas": [
             {"area": "gatetab", "n": 1, "extra": ["Rev"]},
             {"area": "cdem", "shrink": True, "n": {"quick": 400, "thorough": 10000}, "replayable": True},
@@ -148,7 +148,7 @@ PROPS = {
         "assumptions": [],
     },
     "C06": {
-        "lean_modules": ["StimModel.Props.C06", "StimModel.Core.Fold"],
+        "lean_modules": ["StimModel.Props.C06", "StimModel.Core.Fold", "StimModel.Props.Fourier"],
         "areas": [
             {"area": "fold", "n": {"quick": 400, "thorough": 8000}, "replayable": True, "timeout": 1500},
             {"area": "cdem", "shrink": True, "n": {"quick": 150, "thorough": 3000}, "replayable": True},
@@ -181,7 +181,7 @@ PROPS = {
         "assumptions": ["coordinates are dyadic so that shifted coordinates are exact in binary64"],
     },
     "C10": {
-        "lean_modules": ["StimModel.Props.C10", "StimModel.Props.C03"],
+        "lean_modules": ["StimModel.Props.C10", "StimModel.Props.C03", "StimModel.Props.Fourier"],
         "areas": [
             {"area": "cdem", "shrink": True, "n": {"quick": 500, "thorough": 8000}, "extra": ["decompose"], "replayable": True},
         ],
@@ -194,7 +194,7 @@ PROPS = {
         "assumptions": [],
     },
     "C16": {
-        "lean_modules": ["StimModel.Props.C16", "StimModel.Props.C08"],
+        "lean_modules": ["StimModel.Props.C16", "StimModel.Props.C08", "StimModel.Props.Fourier"],
         "builds": ["asan"],
         "areas": [
             {"area": "demsample", "n": {"quick": 300, "thorough": 6000}, "builds": ["asan"], "replayable": True},
